@@ -4,6 +4,8 @@ use crate::core::*;
 use serde_json::Value;
 
 pub mod arch;
+pub mod tarc;
+pub mod canon;
 
 pub struct ScenDef {
     pub name: &'static str,
@@ -23,7 +25,7 @@ pub fn no_shrink(_: &Value) -> Vec<Value> {
 
 pub fn no_init(_: &str) {}
 
-pub static ALL: &[&ScenDef] = &[&arch::DEF];
+pub static ALL: &[&ScenDef] = &[&arch::DEF, &tarc::DEF, &canon::DEF];
 
 pub fn for_prop(prop: &str) -> Option<&'static ScenDef> {
     ALL.iter().copied().find(|d| d.props.contains(&prop))
